@@ -166,6 +166,38 @@ add("C14",
     "trusts vlib/refcal.py; equality of re-spellings demanded for exact "
     "intervals and unbounded series only")
 
+add("C17",
+    "Hypothesis-generated points and format strings from a directive grammar; "
+    "oracle = hand-written POSIX reference (cross-checked with datetime), "
+    "round trip through strptime, refusal of other directives",
+    "strftime (TimePoint and dumper) is compared with a POSIX reference "
+    "evaluated on reference-calendar civil fields for all supported "
+    "directives and literal text; strptime(strftime(p,f),f) must recover the "
+    "instant and offset for determining formats and %s; partial formats must "
+    "default to the start of the period / configured zone; every other "
+    "%-word directive must raise StrftimeSyntaxError. Exploration only.",
+    "trusts vlib/refcal.py and the POSIX reference in the check; datetime is "
+    "used as a second oracle for Gregorian years >= 1000 only")
+add("C18",
+    "exhaustive enumeration of system zone configurations + Hypothesis-"
+    "generated second counts/points against the reference instant model",
+    "Every whole-minute standard offset x flag combination x daylight offset "
+    "(boundary set quick, all minutes thorough) is pushed through "
+    "get_local_time_zone and its three text forms via a fake time module; "
+    "epoch -> TimePoint and TimePoint -> epoch seconds are compared with the "
+    "reference instants over +-3800 (quick) / +-12000 (thorough) years. "
+    "Exhaustive on the zone sub-domain, sampled on second counts.",
+    "trusts vlib/refcal.py; fractional counts bounded so a double resolves 1us")
+add("C20",
+    "Hypothesis-generated (truncated point, full point, order, route) cases; "
+    "oracle = brute-force earliest-match search on the reference calendar",
+    "p + t and t + p are compared with a brute-force scan of local days and "
+    "candidate times in t's (or p's) offset; result must be in p's offset, "
+    "valid, idempotent, within a 20 s watchdog; p is placed on / one second "
+    "around matches half of the time. Known finding F2 excluded by an "
+    "executable two-stage defect model only. Exploration only.",
+    "trusts vlib/refcal.py; whole seconds; designator values the mode admits")
+
 NOT_YET = {}
 
 
